@@ -128,6 +128,10 @@ func (fr *frame) get(key ssa.Value) value {
 		if r, ok := fr.i.globals[key]; ok {
 			return r
 		}
+		if r := externGlobal(fr.i, key); r != nil {
+			return r
+		}
+		panic(unsupported{"package-level variable of an unmodelled package: " + key.String()})
 	}
 	if ix, ok := fr.info.idx[key]; ok {
 		return fr.env[ix]
